@@ -429,7 +429,7 @@ fn concurrent_case(ctx: &mut Ctx, case: u64, rng: &mut Rng) {
     let t = docs[0].t0 + 100;
     iroh_docs::verif::set_clock(t);
     let n_clients = rng.range(2, 4);
-    let ops_per_client = rng.range(2, 5);
+    let ops_per_client = rng.range(2, if ctx.is_quick() { 5 } else { 6 });
     // pre-generate the programs
     let mut programs: Vec<Vec<(usize, Op)>> = vec![];
     let mut uniq = 0;
